@@ -1813,7 +1813,9 @@ bool TypeChecker::checkExpression(expression_t expr)
     }
 
     case NUMOF: {
-        template_t* temp = document.find_dynamic_template(expr[0].get_symbol().get_name());
+        // an unknown name is not an identifier (and has been reported)
+        template_t* temp =
+            expr[0].get_kind() == IDENTIFIER ? document.find_dynamic_template(expr[0].get_symbol().get_name()) : nullptr;
         if (temp) {
             type = type_t::create_primitive(Constants::INT);
         } else {
